@@ -64,6 +64,26 @@ func GenShare(prop string, seed uint64) *RunSpec {
 	return s
 }
 
+// GenShareStmt: the same cases, interleaved at statement granularity; the
+// schedulers get a step estimate that matches the much longer runs, and
+// smaller tables keep a run at some 10^4-10^5 steps.
+func GenShareStmt(prop string, seed uint64) *RunSpec {
+	s := GenShare(prop, seed)
+	s.Scenario = "S-SHARE-STMT"
+	ss := ShareSpecOf(s)
+	if ss.NRefs > 30 {
+		ss.NRefs = 30
+	}
+	if len(ss.Programs) > 4 {
+		ss.Programs = ss.Programs[:4]
+	}
+	b, _ := json.Marshal(ss)
+	raw := json.RawMessage(b)
+	s.Extra = &raw
+	s.Sched.EstLen = 20000
+	return s
+}
+
 // RunShareOp executes one op and renders its result canonically.
 func RunShareOp(tab reftable.Table, op ShareOp, hs int) (out string) {
 	defer func() {
@@ -163,6 +183,8 @@ func ExecuteShare(spec *RunSpec, opts RunOpts) *RunResult {
 	if spec.Scenario == "S-SHARE-RACE" {
 		return ExecuteShareRace(spec, opts)
 	}
+	stmt := spec.Scenario == "S-SHARE-STMT"
+	defer func() { simrt.StmtYields = false }()
 	var ss ShareSpec
 	if spec.Extra == nil || json.Unmarshal(*spec.Extra, &ss) != nil {
 		panic("S-SHARE spec without payload")
@@ -283,6 +305,12 @@ func ExecuteShare(spec *RunSpec, opts RunOpts) *RunResult {
 		}))
 	}
 	sim.Sched = nil
+	if stmt {
+		// statement-level interleaving: every statement of the library is a
+		// scheduling point (binary built by `rewrite -yields`)
+		sim.MaxSteps = 20000000
+		simrt.StmtYields = true
+	}
 	var strat simrt.Strategy
 	if spec.Sched.Mode == "replay" {
 		strat = &simrt.Replay{Segs: spec.Sched.Segs}
@@ -290,7 +318,12 @@ func ExecuteShare(spec *RunSpec, opts RunOpts) *RunResult {
 		strat = &simrt.Random{Rng: simrt.NewRng(spec.Seed, "schedule"), Mode: spec.Sched.Mode, StickP: spec.Sched.StickP, LocalP: 1, Depth: spec.Sched.Depth, EstLen: spec.Sched.EstLen}
 	}
 	sim.RunPhase(tasks, strat)
+	simrt.StmtYields = false
+	if sim.Budget {
+		viol("no-termination", ss.Target, fmt.Sprintf("concurrent readers did not finish within %d scheduler steps (each program alone terminates)", sim.MaxSteps))
+	}
 	res.Segs = sim.Sched
+	res.Probes["share-stmt-yields"] += sim.StmtSteps
 	for _, t := range tasks {
 		if t.Panic != nil {
 			viol("panic", "reader-task", fmt.Sprint(t.Panic))
